@@ -10,7 +10,9 @@ import (
 	"context"
 	"fmt"
 	"net"
+	"sync"
 	"syscall"
+	"time"
 )
 
 // Port is a reserved loopback port.
@@ -65,8 +67,57 @@ func (p *Port) Listen() (net.Listener, error) {
 
 // Release gives the port back.
 func (p *Port) Release() {
+	if p == nil {
+		return
+	}
+	relMu.Lock()
+	defer relMu.Unlock()
 	if p.fd >= 0 {
 		syscall.Close(p.fd)
 		p.fd = -1
 	}
+}
+
+var relMu sync.Mutex
+
+// Blackhole makes connects to the reserved port hang instead of being refused: a listening socket with backlog 0 whose
+// accept queue is kept full, so that further SYNs are dropped. The returned function ends it (connects are refused again).
+func (p *Port) Blackhole() (func(), error) {
+	fd, err := syscall.Socket(syscall.AF_INET, syscall.SOCK_STREAM|syscall.SOCK_CLOEXEC, 0)
+	if err != nil {
+		return nil, err
+	}
+	if err := syscall.SetsockoptInt(fd, syscall.SOL_SOCKET, soReusePort, 1); err != nil {
+		syscall.Close(fd)
+		return nil, err
+	}
+	if err := syscall.Bind(fd, &syscall.SockaddrInet4{Port: p.Port, Addr: [4]byte{127, 0, 0, 1}}); err != nil {
+		syscall.Close(fd)
+		return nil, err
+	}
+	if err := syscall.Listen(fd, 0); err != nil {
+		syscall.Close(fd)
+		return nil, err
+	}
+	var fill []net.Conn
+	ok := false
+	for i := 0; i < 8; i++ {
+		c, err := net.DialTimeout("tcp4", p.Addr, 60*time.Millisecond)
+		if err != nil {
+			ok = true // the queue is full: this connect hung
+			break
+		}
+		fill = append(fill, c)
+	}
+	end := func() {
+		syscall.Close(fd)
+		for _, c := range fill {
+			c.Close()
+		}
+	}
+	if !ok {
+		end()
+		return nil, fmt.Errorf("portres: connects to %s still succeed with a full accept queue", p.Addr)
+	}
+	return end, nil
 }
